@@ -6,9 +6,39 @@ From Coq Require Import ZifyBool.
 Local Open Scope Z_scope.
 
 (* every position of the account in bank key k is covered by the bank totals (implied by the ledger invariant) *)
-Definition pos_le (bk : bank) (k : Z) (la : laccount) : Prop :=
-  forall i bl, nth_error la i = Some bl -> bl_active bl = true -> bl_bank bl = k ->
-  bl_a bl <= b_tas bk /\ bl_l bl <= b_tls bk.
+Definition pos_le2 (ta tl : Z) (k : Z) (la : laccount) : Prop :=
+  forall bl, In bl la -> bl_active bl = true -> bl_bank bl = k -> bl_a bl <= ta /\ bl_l bl <= tl.
+Definition pos_le (bk : bank) (k : Z) (la : laccount) : Prop := pos_le2 (b_tas bk) (b_tls bk) k la.
+
+Lemma pos_le2_mono ta tl ta' tl' k la : pos_le2 ta tl k la -> ta <= ta' -> tl <= tl' -> pos_le2 ta' tl' k la.
+Proof. intros H H1 H2 bl Hin Ha Hb. destruct (H bl Hin Ha Hb). lia. Qed.
+
+Lemma In_set_nth {A} (l : list A) i x y : In y (set_nth i x l) -> y = x \/ In y l.
+Proof.
+  revert i; induction l as [|a l IH]; intros [|i] H; cbn [set_nth In] in *.
+  - destruct H.
+  - destruct H.
+  - destruct H as [H|H]; [left; congruence|right; right; exact H].
+  - destruct H as [H|H]; [right; left; exact H|]. destruct (IH _ H) as [E|E]; [left; exact E|right; right; exact E].
+Qed.
+Lemma In_insert_desc x y l : In y (insert_desc x l) -> y = x \/ In y l.
+Proof.
+  induction l as [|a l IH]; cbn [insert_desc In].
+  - intros [H|[]]. left. congruence.
+  - destruct (bl_bank a <? bl_bank x); cbn [In].
+    + intros [H|[H|H]]; [left; congruence|right; left; exact H|right; right; exact H].
+    + intros [H|H]; [right; left; exact H|]. destruct (IH H) as [E|E]; [left; exact E|right; right; exact E].
+Qed.
+Lemma In_sort y l : In y (sort_balances l) -> In y l.
+Proof.
+  unfold sort_balances. induction l as [|a l IH]; cbn [fold_right In]; [tauto|].
+  intros H. apply In_insert_desc in H as [->|H]; [left; reflexivity|right; apply IH; exact H].
+Qed.
+Lemma pos_le2_sort ta tl k la : pos_le2 ta tl k la -> pos_le2 ta tl k (sort_balances la).
+Proof. intros H bl Hin. apply H. apply In_sort. exact Hin. Qed.
+Lemma pos_le2_set_nth ta tl k la i x : pos_le2 ta tl k la ->
+  (bl_active x = true -> bl_bank x = k -> bl_a x <= ta /\ bl_l x <= tl) -> pos_le2 ta tl k (set_nth i x la).
+Proof. intros H Hx bl Hin. apply In_set_nth in Hin as [->|Hin]; [exact Hx|apply H; exact Hin]. Qed.
 
 Definition acc_slack (w : hworld) (hb : hbank) : Z :=
   match accrue_interest (hb_b hb) (hw_pf w) (hw_now w) with Ok bk1 => accrual_slack (hb_b hb) bk1 | Err _ => 0 end.
@@ -44,26 +74,40 @@ Lemma hb_ok_set_b_id hb : hb_ok hb -> hb_ok (set_hb_b (hb_b hb) hb).
 Proof. intros H. destruct hb; exact H. Qed.
 
 (* the located slot is covered by the totals *)
-Lemma located_le k bk bk0 la now (create : bool) i la1 bl :
+Lemma located_le2 k bk ta tl la now (create : bool) i la1 bl :
   (if create then wrapper_find_or_create k bk la now else let* i := wrapper_find k la in Ok (i, la)) = (Ok (i, la1) : res (nat * laccount)) ->
-  nth_res i la1 = Ok bl -> Forall wf_bal la -> pos_le bk0 k la -> 0 <= b_tas bk0 -> 0 <= b_tls bk0 ->
-  wf_bal bl /\ Forall wf_bal la1 /\ bl_a bl <= b_tas bk0 /\ bl_l bl <= b_tls bk0.
+  nth_res i la1 = Ok bl -> Forall wf_bal la -> pos_le2 ta tl k la -> 0 <= ta -> 0 <= tl ->
+  wf_bal bl /\ Forall wf_bal la1 /\ bl_a bl <= ta /\ bl_l bl <= tl /\ bl_active bl = true /\ bl_bank bl = k /\
+  (forall k', pos_le2 ta tl k' la -> pos_le2 ta tl k' la1).
 Proof.
   intros H Hn Hf Hp Ta Tl. pose proof (nth_res_ok _ _ _ Hn) as En.
   assert (Hfound : forall j, find_active k la = Some j -> j = i -> la1 = la ->
-            wf_bal bl /\ Forall wf_bal la1 /\ bl_a bl <= b_tas bk0 /\ bl_l bl <= b_tls bk0).
+            wf_bal bl /\ Forall wf_bal la1 /\ bl_a bl <= ta /\ bl_l bl <= tl /\ bl_active bl = true /\ bl_bank bl = k /\
+            (forall k', pos_le2 ta tl k' la -> pos_le2 ta tl k' la1)).
   { intros j Hj -> ->. apply find_active_spec in Hj as (bl0 & H1 & H2 & H3). rewrite En in H1. apply Some_inj in H1 as <-.
-    split; [eapply Forall_nth_error; eauto|]. split; [exact Hf|]. eapply Hp; eauto. }
+    split; [eapply Forall_nth_error; eauto|]. split; [exact Hf|].
+    destruct (Hp bl (nth_error_In _ _ En) H2 H3) as [Q1 Q2].
+    split; [exact Q1|]. split; [exact Q2|]. split; [exact H2|]. split; [exact H3|]. intros k' Hk'. exact Hk'. }
   destruct create.
   - unfold wrapper_find_or_create in H. destruct (find_active k la) as [j|] eqn:Ej.
     + apply pair_ok in H as [<- <-]. eapply Hfound; eauto.
     + apply bind_ok in H as (u & _ & H). destruct (find_idx _ la 0) as [j|] eqn:Ei; [|discriminate].
       apply pair_ok in H as [<- <-]. apply find_idx_spec in Ei as (bl0 & H1 & H2 & _). rewrite Nat.sub_0_r in H1.
       rewrite (nth_set_nth_same _ _ _ _ H1) in En. apply Some_inj in En as <-.
-      cbn [bl_a bl_l]. split; [unfold wf_bal; cbn; lia|]. split; [|lia].
-      apply Forall_set_nth; [exact Hf|]. unfold wf_bal; cbn; lia.
+      cbn [bl_a bl_l bl_active bl_bank]. split; [unfold wf_bal; cbn; lia|].
+      split; [apply Forall_set_nth; [exact Hf|]; unfold wf_bal; cbn; lia|].
+      split; [lia|]. split; [lia|]. split; [reflexivity|]. split; [reflexivity|].
+      intros k' Hk'. apply pos_le2_set_nth; [exact Hk'|]. cbn [bl_a bl_l]. lia.
   - unfold wrapper_find in H. destruct (find_active k la) as [j|] eqn:Ej; [|discriminate].
     cbn [bind] in H. apply pair_ok in H as [<- <-]. eapply Hfound; eauto.
+Qed.
+
+Lemma located_le k bk bk0 la now (create : bool) i la1 bl :
+  (if create then wrapper_find_or_create k bk la now else let* i := wrapper_find k la in Ok (i, la)) = (Ok (i, la1) : res (nat * laccount)) ->
+  nth_res i la1 = Ok bl -> Forall wf_bal la -> pos_le bk0 k la -> 0 <= b_tas bk0 -> 0 <= b_tls bk0 ->
+  wf_bal bl /\ Forall wf_bal la1 /\ bl_a bl <= b_tas bk0 /\ bl_l bl <= b_tls bk0.
+Proof.
+  intros H Hn Hf Hp Ta Tl. destruct (located_le2 _ _ _ _ _ _ _ _ _ _ H Hn Hf Hp Ta Tl) as (A & B & C & D & _). auto.
 Qed.
 
 Lemma find_as_located k la i : wrapper_find k la = Ok i ->
@@ -84,7 +128,7 @@ Proof.
   pose proof (accrue_monotone (hb_b hb) _ _ _ ltac:(destruct Hok as ((?&?&?&?)&_); assumption) ltac:(destruct Hok as ((?&?&?&?)&_); assumption) Ta Tl Hacc) as (_ & _ & _ & _ & _ & _ & T1 & T2 & _).
   destruct Hcase as [[-> ->] | (dep & i & la1 & bl & bk2 & bl2 & pre & f & bk3 & Hd & Hloc & Hbl & Hinc & Hpre & Hf & Hcache & -> & ->)].
   - split; [exact Hok1|]. split; [exact Hwf|]. unfold gap, gapb. cbn [set_hb_b hb_b hb_vault]. lia.
-  - assert (Hpos1 : pos_le bk1 (bank_pk b) (ha_la ac)) by (intros j x Hx Hax Hbx; rewrite T1, T2; eapply Hpos; eauto).
+  - assert (Hpos1 : pos_le bk1 (bank_pk b) (ha_la ac)) by (unfold pos_le; rewrite T1, T2; exact Hpos).
     destruct (located_le _ _ bk1 _ _ true _ _ _ Hloc Hbl Hwf Hpos1 ltac:(lia) ltac:(lia)) as (Wbl & Wla1 & La & Ll).
     pose proof (hb_ok_sv _ Hok1) as Hsv1. cbn [set_hb_b hb_b] in Hsv1.
     assert (Hdn : 0 <= of_int dep) by (unfold of_int; pose proof ONE_pos; nia).
@@ -134,7 +178,7 @@ Proof.
   intros Hok Hpos Hacc. destruct (hb_ok_after_accrue _ _ _ _ Hok Hacc) as (Hok1 & Hs).
   destruct (hb_ok_tot _ Hok) as (Ta & Tl).
   pose proof (accrue_monotone (hb_b hb) _ _ _ ltac:(destruct Hok as ((?&?&?&?)&_); assumption) ltac:(destruct Hok as ((?&?&?&?)&_); assumption) Ta Tl Hacc) as (_ & _ & _ & _ & _ & _ & T1 & T2 & _).
-  split; [exact Hok1|]. split; [exact Hs|]. split; [intros j x Hx Hax Hbx; rewrite T1, T2; eapply Hpos; eauto|].
+  split; [exact Hok1|]. split; [exact Hs|]. split; [unfold pos_le; rewrite T1, T2; exact Hpos|].
   split; [lia|]. split; [lia|]. pose proof (hb_ok_sv _ Hok1) as S. exact S.
 Qed.
 
@@ -174,4 +218,288 @@ Proof.
     destruct (hb_ok_cache _ _ _ _ _ Hok2 Hcache) as (Hok3 & N3).
     split; [apply hb_ok_mk_hb; exact Hok3|]. split; [apply wf_sort_set; [assumption|split; assumption]|].
     rewrite gap_mk_hb. unfold gap, gapb. rewrite N3. unfold of_int in N1. pose proof ONE_pos. nia.
+Qed.
+
+(* ---------------------------------------------------------------- borrow *)
+Definition fees_rep (bk : bank) : Prop := I128_MIN <= b_grp bk /\ I128_MIN <= b_prog bk.
+Definition pf_ok (pf : prog_fees) : Prop := 0 <= pf_rate pf <= ONE.
+
+Lemma orig_fee_inv hb pre delta ofee : 0 <= pre -> orig_fee_of hb pre = Ok (delta, ofee) ->
+  delta = of_int pre + ofee /\ 0 <= ofee.
+Proof.
+  intros Hp. unfold orig_fee_of. destruct (hb_orig_fee hb =? 0).
+  - intros H. apply Ok_inj, pair_equal_spec in H as [<- <-]. lia.
+  - intros H. apply bind_ok in H as (f & Hf & H). apply bind_ok in H as (n & Hn & H). apply bind_ok in H as (d & Hd & H).
+    apply Ok_inj, pair_equal_spec in H as [<- <-]. apply uadd_inv in Hd as [-> _].
+    apply math_ok, to_u64_inv in Hn as [En Hn]. split; [reflexivity|].
+    pose proof ONE_pos. destruct (Z_lt_le_dec f 0) as [Hneg|]; [|lia].
+    exfalso. assert (f / ONE < 0) by (apply Z.div_lt_upper_bound; lia). lia.
+Qed.
+
+Lemma clamp_le_inrange x : I128_MIN <= x -> clamp I128_MIN I128_MAX x <= x.
+Proof. intros H. unfold clamp. rewrite I128_MIN_val, I128_MAX_val in *. lia. Qed.
+Lemma clamp_ge_min x : I128_MIN <= clamp I128_MIN I128_MAX x.
+Proof. unfold clamp. rewrite I128_MIN_val, I128_MAX_val. lia. Qed.
+
+Lemma book_orig_fee_inv pf ofee bk bk' : pf_ok pf -> 0 <= ofee -> fees_rep bk -> book_orig_fee pf ofee bk = Ok bk' ->
+  NAV bk' - NAV bk <= ofee * ONE /\ bank_static bk bk' /\ b_asv bk' = b_asv bk /\ b_lsv bk' = b_lsv bk /\
+  b_tas bk' = b_tas bk /\ b_tls bk' = b_tls bk /\ fees_rep bk'.
+Proof.
+  intros (R0 & R1) Ho (G & P). unfold book_orig_fee. destruct (ofee =? 0) eqn:E0.
+  - intros H. apply Ok_inj in H. subst bk'. split; [pose proof ONE_pos; nia|]. split; [apply bank_static_refl|].
+    repeat split; try reflexivity; assumption.
+  - destruct (pf_rate pf =? 0).
+    + intros H. apply Ok_inj in H. subst bk'.
+      pose proof (clamp_le_inrange (b_grp bk + ofee) ltac:(lia)). pose proof (clamp_ge_min (b_grp bk + ofee)).
+      set (c := clamp I128_MIN I128_MAX (b_grp bk + ofee)) in *.
+      split; [unfold NAV, Dv, Lv, Fv; cbn [set_b_grp b_tas b_asv b_tls b_lsv b_ins b_grp b_prog]; pose proof ONE_pos; nia|].
+      split; [apply static_set_grp|].
+      unfold fees_rep. cbn [set_b_grp b_tas b_asv b_tls b_lsv b_ins b_grp b_prog]. repeat split; try reflexivity; assumption.
+    + intros H. apply bind_ok in H as (pfa & Hpfa & H). apply Ok_inj in H. subst bk'.
+      apply math_ok, cmul_inv in Hpfa as [-> _].
+      assert (0 <= ofee * pf_rate pf / ONE <= ofee) by (apply mul_div_le; [apply ONE_pos|lia|lia]).
+      set (pfa := ofee * pf_rate pf / ONE) in *.
+      pose proof (clamp_le_inrange (ofee - pfa) ltac:(rewrite I128_MIN_val; lia)).
+      assert (0 <= clamp I128_MIN I128_MAX (ofee - pfa)) by (unfold clamp; rewrite I128_MIN_val, I128_MAX_val; lia).
+      set (rest := clamp I128_MIN I128_MAX (ofee - pfa)) in *.
+      pose proof (clamp_le_inrange (b_grp bk + rest) ltac:(lia)). pose proof (clamp_ge_min (b_grp bk + rest)).
+      pose proof (clamp_le_inrange (b_prog bk + pfa) ltac:(lia)). pose proof (clamp_ge_min (b_prog bk + pfa)).
+      set (cg := clamp I128_MIN I128_MAX (b_grp bk + rest)) in *. set (cp := clamp I128_MIN I128_MAX (b_prog bk + pfa)) in *.
+      split; [unfold NAV, Dv, Lv, Fv; cbn [set_b_grp set_b_prog b_tas b_asv b_tls b_lsv b_ins b_grp b_prog]; pose proof ONE_pos; nia|].
+      split; [eapply bank_static_trans; [apply static_set_grp|apply static_set_prog]|].
+      unfold fees_rep. cbn [set_b_grp set_b_prog b_tas b_asv b_tls b_lsv b_ins b_grp b_prog]. repeat split; try reflexivity; assumption.
+Qed.
+
+Lemma borrow_gap w w' a b amount hb hb' ac ac' :
+  0 <= amount -> borrow_facts w w' a b amount hb hb' ac ac' -> hb_ok hb -> fees_rep (hb_b hb) -> pf_ok (hw_pf w) ->
+  Forall wf_bal (ha_la ac) -> pos_le (hb_b hb) (bank_pk b) (ha_la ac) ->
+  hb_ok hb' /\ fees_rep (hb_b hb') /\ Forall wf_bal (ha_la ac') /\ gap hb - acc_slack w hb - sv_slack w hb <= gap hb'.
+Proof.
+  intros Hamt (bk1 & i & la1 & bl & pre & delta & ofee & bk2 & bl2 & bk4 & bk5 & Hacc & _ & _ & _ & Hloc & Hbl & Hpre & Hof & Hdec & Hle & Hbook & Hcache & -> & -> & _)
+         Hok Hfr Hpf Hwf Hpos.
+  unfold acc_slack, sv_slack. rewrite Hacc.
+  destruct (after_accrue _ _ _ _ _ Hok Hpos Hacc) as (Hok1 & Hs & Hpos1 & Ta1 & Tl1 & Hsv1).
+  destruct (located_le _ _ bk1 _ _ true _ _ _ Hloc Hbl Hwf Hpos1 Ta1 Tl1) as (Wbl & Wla1 & La & Ll).
+  pose proof Hok as (Hwfb & _ & _ & _ & Hb1 & Hb2).
+  pose proof (pre_fee_nonneg _ _ _ Hb1 Hb2 Hamt Hpre) as Hp0.
+  destruct (orig_fee_inv _ _ _ _ Hp0 Hof) as (-> & Ho0).
+  assert (Hdn : 0 <= of_int pre + ofee) by (unfold of_int; pose proof ONE_pos; nia).
+  destruct (NAV_decrease _ _ _ _ _ _ _ Hsv1 Wbl Hdn Hdec) as (N1 & Wbl2).
+  pose proof (decrease_balance_inv _ _ _ _ _ _ _ Hsv1 Wbl Hdn Hdec) as F.
+  destruct (df_sv _ _ _ _ _ _ F) as [S1 S2]. destruct (df_fees _ _ _ _ _ _ F) as (_ & G2 & P2).
+  pose proof (df_a _ _ _ _ _ _ F) as Fa. pose proof (df_l _ _ _ _ _ _ F) as Fl.
+  pose proof (df_tas _ _ _ _ _ _ F) as Fta. pose proof (df_tls _ _ _ _ _ _ F) as Ftl.
+  destruct Wbl as [Wa Wl]. destruct Wbl2 as [Wa2 Wl2].
+  assert (Hok2 : hb_ok (set_hb_b bk2 hb)).
+  { eapply hb_ok_step; [exact Hok1|eapply static_decrease; eauto|assumption|assumption|lia|lia]. }
+  (* fee buckets after accrual are still representable *)
+  destruct Hwfb as (A0 & L0 & Ta0 & Tl0).
+  pose proof (accrue_monotone _ _ _ _ A0 L0 Ta0 Tl0 Hacc) as (_ & _ & _ & Mg & Mp & _).
+  assert (Hfr2 : fees_rep bk2) by (destruct Hfr; unfold fees_rep; lia).
+  destruct (book_orig_fee_inv _ _ _ _ Hpf Ho0 Hfr2 Hbook) as (N4 & St4 & E1 & E2 & T1 & T2 & Hfr4).
+  assert (Hok4 : hb_ok (set_hb_b bk4 hb)).
+  { eapply hb_ok_step; [exact Hok2|exact St4|assumption|assumption|
+      rewrite T1; destruct (hb_ok_tot _ Hok2); assumption|rewrite T2; destruct (hb_ok_tot _ Hok2); assumption]. }
+  destruct (hb_ok_cache _ _ _ _ _ Hok4 Hcache) as (Hok5 & N5).
+  split; [apply hb_ok_mk_hb; exact Hok5|]. split.
+  { cbn [mk_hb set_hb_b hb_b]. apply update_bank_cache_core in Hcache as [-> | ->]; [exact Hfr4|exact Hfr4]. }
+  split; [apply wf_sort_set; [assumption|split; assumption]|].
+  rewrite gap_mk_hb. unfold gap, gapb. rewrite N5. unfold of_int in N1. pose proof ONE_pos. nia.
+Qed.
+
+(* ---------------------------------------------------------------- repay *)
+(* the sanctioned exception: the risk admin's token-less write-off on a bank flagged for it *)
+Definition tokenless_writeoff (w : hworld) (hb : hbank) (all : bool) : Prop :=
+  hw_risk_admin_signs w = true /\ get_flag (b_flags (hb_b hb)) TOKENLESS_REPAYMENTS_ALLOWED = true /\ all = true.
+
+Lemma mark_core bk : let bk' := mark_tokenless_complete bk in
+  NAV bk' = NAV bk /\ b_asv bk' = b_asv bk /\ b_lsv bk' = b_lsv bk /\ b_tas bk' = b_tas bk /\ b_tls bk' = b_tls bk /\
+  b_ir bk' = b_ir bk /\ b_grp bk' = b_grp bk /\ b_prog bk' = b_prog bk.
+Proof. unfold mark_tokenless_complete. destruct (_ && _); cbn; repeat split; reflexivity. Qed.
+
+Lemma repay_gap w a b amount all hb hb' ac ac' :
+  0 <= amount -> repay_facts w a b amount all hb hb' ac ac' -> hb_ok hb ->
+  Forall wf_bal (ha_la ac) -> pos_le (hb_b hb) (bank_pk b) (ha_la ac) ->
+  hb_ok hb' /\ Forall wf_bal (ha_la ac') /\
+  (gap hb - acc_slack w hb - (if all then ONE else 0) <= gap hb' \/ tokenless_writeoff w hb all).
+Proof.
+  intros Hamt (bk1 & i & bl & bk2 & bl2 & post & V' & bk5 & Hacc & _ & Hi & Hbl & Hprim & Htok & Hcache & -> & ->) Hok Hwf Hpos.
+  unfold acc_slack. rewrite Hacc.
+  destruct (after_accrue _ _ _ _ _ Hok Hpos Hacc) as (Hok1 & Hs & Hpos1 & Ta1 & Tl1 & Hsv1).
+  destruct (located_le _ bk1 bk1 _ (hw_now w) false _ _ _ (find_as_located _ _ _ Hi) Hbl Hwf Hpos1 Ta1 Tl1) as (Wbl & _ & La & Ll).
+  pose proof Hok as (_ & _ & _ & _ & Hb1 & Hb2).
+  pose proof (mark_core bk2) as (Nm & Em1 & Em2 & Tm1 & Tm2 & Im & _). cbv zeta in *.
+  (* the primitive *)
+  assert (Hp : hb_ok (set_hb_b bk2 hb) /\ wf_bal bl2 /\ 0 <= post /\ NAV bk2 - NAV bk1 < post * ONE * ONE + (if all then ONE else 0) + (if all then 0 else 1) /\
+               b_flags bk2 = b_flags bk1).
+  { destruct all.
+    - destruct (NAV_repay_all _ _ _ _ _ _ Hsv1 Wbl Hprim) as (N1 & Hn0).
+      pose proof (repay_all_inv _ _ _ _ _ _ Hsv1 Wbl Hprim) as F.
+      destruct (ra_sv _ _ _ _ _ F) as [S1 S2]. pose proof (ra_tas _ _ _ _ _ F) as Fta. pose proof (ra_tls _ _ _ _ _ F) as Ftl.
+      pose proof (static_repay_all _ _ _ _ _ _ Hprim) as St.
+      split; [eapply hb_ok_step; [exact Hok1|exact St|assumption|assumption|lia|lia]|].
+      split; [rewrite (ra_closed _ _ _ _ _ F); unfold wf_bal; cbn; lia|]. split; [lia|]. split; [lia|].
+      destruct St as (_ & Fl & _). exact Fl.
+    - destruct Hprim as (-> & Hinc).
+      assert (Hdn : 0 <= of_int amount) by (unfold of_int; pose proof ONE_pos; nia).
+      destruct (NAV_increase _ _ _ _ _ _ _ Hsv1 Wbl Hdn Hinc) as (N1 & N0 & Wbl2).
+      pose proof (increase_balance_inv _ _ _ _ _ _ _ Hsv1 Wbl Hdn Hinc) as F.
+      destruct (if_sv _ _ _ _ _ _ F) as [S1 S2].
+      pose proof (if_a _ _ _ _ _ _ F) as Fa. pose proof (if_l _ _ _ _ _ _ F) as Fl.
+      pose proof (if_tas _ _ _ _ _ _ F) as Fta. pose proof (if_tls _ _ _ _ _ _ F) as Ftl.
+      pose proof (static_increase _ _ _ _ _ _ _ Hinc) as St.
+      destruct Wbl as [Wa Wl]. pose proof Wbl2 as [Wa2 Wl2].
+      split; [eapply hb_ok_step; [exact Hok1|exact St|assumption|assumption|lia|lia]|].
+      split; [exact Wbl2|]. split; [lia|]. split; [unfold of_int in N1; lia|].
+      destruct St as (_ & Fl' & _). exact Fl'. }
+  destruct Hp as (Hok2 & Wbl2 & Hpost & N1 & Hflags).
+  assert (Hokm : hb_ok (set_hb_b (mark_tokenless_complete bk2) hb)).
+  { eapply set_b_keeps_ok; [exact Hok2| | | |]; try assumption.
+    destruct (hb_ok_tot _ Hok2) as (X1 & X2). cbn [set_hb_b hb_b] in X1, X2.
+    destruct Hok2 as ((A & L & _ & _) & _). cbn [set_hb_b hb_b] in A, L. unfold wf_bank. lia. }
+  destruct (hb_ok_cache _ _ _ _ _ Hokm Hcache) as (Hok5 & N5).
+  split; [apply hb_ok_mk_hb; exact Hok5|]. split; [apply wf_sort_set; assumption|].
+  destruct Htok as [(Hr & Hfl & Hall & ->) | (pre & f & Hpre & Hf & ->)].
+  - right. unfold tokenless_writeoff. split; [exact Hr|]. split; [|exact Hall].
+    rewrite Hflags in Hfl. pose proof (accrue_frame _ _ _ _ Hacc) as (_ & _ & Ff & _). rewrite Ff in Hfl. exact Hfl.
+  - left. rewrite gap_mk_hb. unfold gap, gapb. rewrite N5, Nm.
+    destruct (pre_fee_covers hb post pre f Hb1 Hb2 Hpost Hpre Hf) as (Hcov & _).
+    pose proof ONE_pos. destruct all; nia.
+Qed.
+
+(* ---------------------------------------------------------------- close_balance / accrue / collect fees *)
+Lemma close_gap w a b hb hb' ac ac' :
+  close_facts w a b hb hb' ac ac' -> hb_ok hb -> Forall wf_bal (ha_la ac) -> pos_le (hb_b hb) (bank_pk b) (ha_la ac) ->
+  hb_ok hb' /\ Forall wf_bal (ha_la ac') /\ gap hb - acc_slack w hb <= gap hb'.
+Proof.
+  intros (bk1 & bk2 & i & bl & bk3 & bl3 & Hacc & _ & Hcache & Hi & Hbl & Hcl & -> & ->) Hok Hwf Hpos.
+  unfold acc_slack. rewrite Hacc.
+  destruct (after_accrue _ _ _ _ _ Hok Hpos Hacc) as (Hok1 & Hs & Hpos1 & Ta1 & Tl1 & Hsv1).
+  destruct (hb_ok_cache _ _ _ _ _ Hok1 Hcache) as (Hok2 & N2).
+  destruct (NAV_cache _ _ _ _ Hcache) as (_ & E1 & E2 & T1 & T2 & _).
+  assert (Hpos2 : pos_le bk2 (bank_pk b) (ha_la ac)) by (unfold pos_le; rewrite T1, T2; exact Hpos1).
+  destruct (located_le _ bk2 bk2 _ (hw_now w) false _ _ _ (find_as_located _ _ _ Hi) Hbl Hwf Hpos2 ltac:(lia) ltac:(lia)) as (Wbl & _ & La & Ll).
+  pose proof (hb_ok_sv _ Hok2) as Hsv2. cbn [set_hb_b hb_b] in Hsv2.
+  pose proof (NAV_close_balance _ _ _ _ _ Hsv2 Wbl Hcl) as N3.
+  destruct (close_balance_inv _ _ _ _ _ Hsv2 Wbl Hcl) as (-> & C1 & C2 & C3 & C4 & _).
+  assert (Hok3 : hb_ok (set_hb_b bk3 hb)).
+  { eapply hb_ok_step; [exact Hok2|eapply static_close_balance; eauto|assumption|assumption|lia|lia]. }
+  split; [exact Hok3|]. split; [apply wf_sort_set; [assumption|unfold wf_bal; cbn; lia]|].
+  unfold gap, gapb. cbn [set_hb_b hb_b hb_vault]. lia.
+Qed.
+
+Lemma accrue_gap w hb bk1 bk2 :
+  accrue_interest (hb_b hb) (hw_pf w) (hw_now w) = Ok bk1 -> update_bank_cache bk1 (hw_pf w) (hw_now w) = Ok bk2 ->
+  hb_ok hb -> hb_ok (set_hb_b bk2 hb) /\ gap hb - acc_slack w hb <= gap (set_hb_b bk2 hb).
+Proof.
+  intros Hacc Hcache Hok. unfold acc_slack. rewrite Hacc.
+  destruct (hb_ok_after_accrue _ _ _ _ Hok Hacc) as (Hok1 & Hs).
+  destruct (hb_ok_cache _ _ _ _ _ Hok1 Hcache) as (Hok2 & N2).
+  split; [exact Hok2|]. unfold gap, gapb. cbn [set_hb_b hb_b hb_vault]. lia.
+Qed.
+
+Lemma collect_gap hb hb' :
+  bank_static (hb_b hb) (hb_b hb') -> hb_static hb hb' ->
+  b_tas (hb_b hb') = b_tas (hb_b hb) -> b_tls (hb_b hb') = b_tls (hb_b hb) ->
+  b_asv (hb_b hb') = b_asv (hb_b hb) -> b_lsv (hb_b hb') = b_lsv (hb_b hb) ->
+  (exists m, hb_vault hb' * ONE = hb_vault hb * ONE - m /\ Fv (hb_b hb') = Fv (hb_b hb) - m) ->
+  hb_ok hb -> hb_ok hb' /\ gap hb' = gap hb.
+Proof.
+  intros (Sir & _) (H1 & H2 & H3 & _) T1 T2 E1 E2 (m & Hv & Hf) (Hw & Hp & Hl & (V1 & V2 & V3) & Hf1 & Hf2).
+  split.
+  - destruct Hw as (W1 & W2 & W3 & W4). unfold hb_ok, valid_curve, wf_bank. rewrite T1, T2, E1, E2, Sir, H2, H3.
+    split; [repeat split; assumption|]. split; [exact Hp|]. split; [exact Hl|]. split; [exact (conj V1 (conj V2 V3))|]. split; assumption.
+  - unfold gap, gapb, NAV, Dv, Lv. rewrite T1, T2, E1, E2, Hf. pose proof ONE_pos. nia.
+Qed.
+
+(* ---------------------------------------------------------------- bankruptcy *)
+Lemma socialize_alive b loss b' : wf_sv b -> 0 <= b_tas b -> 0 <= loss -> socialize_loss b loss = Ok (b', false) ->
+  0 < b_asv b' /\ NAV b' - NAV b <= - loss * ONE /\ b_lsv b' = b_lsv b /\ b_tas b' = b_tas b /\ b_tls b' = b_tls b /\
+  b_grp b' = b_grp b /\ b_prog b' = b_prog b.
+Proof.
+  intros [Ha Hl] Ht Hloss H. unfold socialize_loss in H. apply bind_ok in H as (total & Htot & H).
+  apply math_ok, cmul_inv in Htot as [Htot _].
+  destruct (total <=? loss) eqn:E.
+  - apply Ok_inj, pair_equal_spec in H as [_ H]. discriminate.
+  - apply bind_ok in H as (d & Hd & H). apply usub_inv in Hd as [Hd _].
+    apply bind_ok in H as (nsv & Hn & H). apply Ok_inj, pair_equal_spec in H as [<- Hk].
+    assert (Hd0 : 0 < d) by lia.
+    assert (Htp : 0 < b_tas b).
+    { destruct (Z.eq_dec (b_tas b) 0) as [E0|]; [|lia]. exfalso.
+      apply math_ok in Hn. unfold cdiv in Hn. rewrite E0 in Hn. cbn in Hn. discriminate. }
+    apply math_ok in Hn. apply cdiv_inv_nonneg in Hn as [Hn Hr]; [|lia|lia].
+    pose proof ONE_pos as HO.
+    assert (Hq : b_tas b * nsv <= d * ONE).
+    { rewrite Hn. apply Z.mul_div_le. exact Htp. }
+    assert (Ht2 : total * ONE <= b_tas b * b_asv b).
+    { rewrite Htot. rewrite Z.mul_comm. apply Z.mul_div_le. exact HO. }
+    cbn [set_b_asv b_asv b_lsv b_tas b_tls b_grp b_prog].
+    split; [lia|]. split; [|repeat split; reflexivity].
+    unfold NAV, Dv, Lv, Fv. cbn [set_b_asv b_asv b_lsv b_tas b_tls b_ins b_grp b_prog]. nia.
+Qed.
+
+Lemma bankruptcy_gap w a b hb hb' ac ac' :
+  bankruptcy_facts w a b hb hb' ac ac' -> hb_ok hb -> Forall wf_bal (ha_la ac) -> pos_le (hb_b hb) (bank_pk b) (ha_la ac) ->
+  Forall wf_bal (ha_la ac') /\
+  ((hb_ok hb' /\ gap hb - acc_slack w hb <= gap hb' /\ b_grp (hb_b hb') >= b_grp (hb_b hb) /\ b_prog (hb_b hb') >= b_prog (hb_b hb))
+   \/ b_op_state (hb_b hb') = OP_KILLED).
+Proof.
+  intros (ps & A & L & bk1 & i & bl & bad & avail_n & covered & loss & ce & cov_n & pre & f & bk2 & kill & bk3 & bl3 & bk4 &
+          _ & _ & Hacc & Hi & Hbl & Hbad & Hthr & _ & Hcov & Hloss & Hce & Hcn & Hpre & _ & Hf & Hsoc & Hinc & Hcache & -> & ->) Hok Hwf Hpos.
+  unfold acc_slack. rewrite Hacc.
+  destruct (after_accrue _ _ _ _ _ Hok Hpos Hacc) as (Hok1 & Hs & Hpos1 & Ta1 & Tl1 & Hsv1).
+  assert (Hfind : wrapper_find (bank_pk b) (ha_la ac) = Ok i) by (unfold wrapper_find; rewrite Hi; reflexivity).
+  destruct (located_le _ bk1 bk1 _ (hw_now w) false _ _ _ (find_as_located _ _ _ Hfind) Hbl Hwf Hpos1 Ta1 Tl1) as (Wbl & _ & La & Ll).
+  assert (Hthr0 : 0 < ZERO_AMOUNT_THRESHOLD) by reflexivity.
+  assert (Hb0 : 0 <= bad) by lia.
+  assert (Hl0 : 0 <= loss) by (subst loss; unfold fmax; lia).
+  assert (Hcb : covered <= bad) by (subst covered; unfold fmin; lia).
+  assert (Hlc : loss = bad - covered) by (subst loss; unfold fmax; lia).
+  destruct kill.
+  - (* the bank is wiped out *)
+    destruct (socialize_sv _ _ _ _ Hsv1 Ta1 Hsoc) as (Hsv2 & T1 & T2).
+    assert (Wbl3 : wf_bal bl3).
+    { destruct (NAV_increase _ _ _ _ _ _ _ Hsv2 Wbl Hb0 Hinc) as (_ & _ & X). exact X. }
+    split; [cbn [ha_la]; apply Forall_set_nth; assumption|]. right. reflexivity.
+  - destruct (socialize_alive _ _ _ Hsv1 Ta1 Hl0 Hsoc) as (Hasv2 & N2 & E2 & T1 & T2 & G2 & P2).
+    pose proof (static_socialize _ _ _ _ Hsoc) as St2.
+    assert (Hsv2 : wf_sv bk2) by (destruct Hsv1; unfold wf_sv; lia).
+    destruct (NAV_increase _ _ _ _ _ _ _ Hsv2 Wbl Hb0 Hinc) as (N3 & _ & Wbl3).
+    pose proof (increase_balance_inv _ _ _ _ _ _ _ Hsv2 Wbl Hb0 Hinc) as F.
+    destruct (if_sv _ _ _ _ _ _ F) as [S1 S2]. destruct (if_fees _ _ _ _ _ _ F) as (_ & G3 & P3).
+    pose proof (if_l _ _ _ _ _ _ F) as Fl. pose proof (if_tas _ _ _ _ _ _ F) as Fta. pose proof (if_tls _ _ _ _ _ _ F) as Ftl.
+    pose proof (if_a _ _ _ _ _ _ F) as Fa.
+    destruct Wbl as [Wa Wl]. pose proof Wbl3 as [Wa3 Wl3].
+    assert (Hok2 : hb_ok (set_hb_b bk2 hb)).
+    { destruct Hok1 as ((A1 & L1 & _ & _) & P1 & Lp1 & (V1 & V2 & V3) & Hf1 & Hf2). cbn [set_hb_b hb_b hb_tf_bps hb_tf_max] in *.
+      destruct St2 as (Sir & _). unfold hb_ok, valid_curve, wf_bank. cbn [set_hb_b hb_b hb_tf_bps hb_tf_max]. rewrite Sir, E2, T1, T2.
+      split; [repeat split; lia|]. split; [exact Hasv2|]. split; [exact Lp1|]. split; [exact (conj V1 (conj V2 V3))|]. split; assumption. }
+    assert (Hok3 : hb_ok (set_hb_b bk3 hb)).
+    { eapply hb_ok_step; [exact Hok2|eapply static_increase; eauto|assumption|assumption|lia|lia]. }
+    destruct (hb_ok_cache _ _ _ _ _ Hok3 Hcache) as (Hok4 & N4).
+    split; [cbn [ha_la]; apply Forall_set_nth; assumption|]. left.
+    split; [exact Hok4|].
+    destruct Hok as (Hwfb & _ & _ & _ & Hb1 & Hb2).
+    apply cceil_inv in Hce. apply to_u64_inv in Hcn as (Hcn & Hcr).
+    destruct (pre_fee_covers hb cov_n pre f Hb1 Hb2 ltac:(lia) Hpre Hf) as (Hcover & _).
+    pose proof ONE_pos as HO.
+    assert (Hce2 : covered <= ce /\ cov_n * ONE = ce).
+    { pose proof (Z.div_mod covered ONE ltac:(lia)). pose proof (Z.mod_pos_bound covered ONE HO).
+      destruct (covered mod ONE =? 0) eqn:Em.
+      - subst ce. split; [lia|]. rewrite Hcn. lia.
+      - subst ce. split; [lia|]. rewrite Hcn. rewrite Z.div_add_l by lia. rewrite Z.div_same by lia. lia. }
+    destruct Hce2 as (Hce2 & Hce3).
+    split.
+    + unfold gap, gapb. cbn [set_hb_b set_hb_vault set_hb_insv hb_b hb_vault]. rewrite N4. nia.
+    + cbn [set_hb_b hb_b]. destruct Hwfb as (A0 & L0 & Ta0 & Tl0).
+      pose proof (accrue_monotone _ _ _ _ A0 L0 Ta0 Tl0 Hacc) as (_ & _ & _ & Mg & Mp & _).
+      apply update_bank_cache_core in Hcache as [-> | ->]; cbn [set_b_last_update b_grp b_prog]; lia.
+Qed.
+
+(* ---------------------------------------------------------------- liquidation *)
+Lemma ffrac_split x n : 0 <= x -> to_u64_checked x = Ok n -> x = n * ONE + ffrac x /\ 0 <= ffrac x /\ 0 <= n.
+Proof.
+  intros Hx H. apply to_u64_inv in H as (-> & Hr). pose proof ONE_pos as HO.
+  unfold ffrac. pose proof (Z.div_mod x ONE ltac:(lia)). pose proof (Z.mod_pos_bound x ONE HO).
+  rewrite ffrac_nonneg_val by lia. lia.
 Qed.
